@@ -521,7 +521,10 @@ func (f *fx) update(v Term, t types.Type, path []PathStep, nv Term) Term {
 		srt := f.e.sorts.sortOf(t)
 		info := f.e.sorts.structInfo[srt]
 		if info == nil {
-			unsupp("update of opaque struct %s", t)
+			// a store into a field of a struct this model keeps opaque (a library type such as sync.Pool):
+			// the struct becomes an arbitrary value of its sort (nothing is known about opaque structs anyway)
+			f.note("store into a field of the opaque struct " + t.String() + ": the struct value is havocked")
+			return f.sc.fresh("opaque_upd", srt)
 		}
 		parts := make([]Term, len(info.Fields))
 		for i := range info.Fields {
